@@ -15,11 +15,13 @@ Conventions
   harness use units of 1/8 s so that every stamp is an exactly representable float.
 * share data are association lists in insertion order (`odict`); deleting a field is not an
   operation of the histories (the property speaks of share writes).
-* values are immutable atoms or lists of atoms; Python `!=` is `Val.pyEq` (`True == 1`).
+* values are atoms, tuples of atoms, lists (of atoms, tuples, lists) and string-keyed mappings of
+  atoms; Python `!=` is `Val.pyEq` (`True == 1`, mappings compare without order).
   Lists are held *by value*.  This is the behaviour of the code **with the fix patches**
   `fixes/D52-log-change-alias.patch` (the change rule keeps `copy.copy` of the last value instead of
   an alias of the share's list object), `fixes/D51-log-change-restart.patch` (`prepare` rebuilds
-  `.lasts` only before the first record) and D53 (`reopen` treats an existing empty file as new).  Without them the change rule misses in-place mutations
+  `.lasts` only before the first record), D53 (`reopen` treats an existing empty file as new) and
+  D54 (`fmt % (value, )`: a tuple-valued field is one value, as `logStreak` always did for its elements).  Without them the change rule misses in-place mutations
   and changes made while the logger is stopped.
 * a Python exception is never a defaulted value: every transcribed method returns the state
   reached when the exception was raised together with `some err`.
@@ -35,10 +37,28 @@ inductive Atom where
   | str (s : String)
 deriving DecidableEq, Repr, Inhabited
 
-inductive Val where
+/-- what a list (queue) holds: an atom, a tuple of atoms or a list of atoms -/
+inductive Elem where
   | atom (a : Atom)
+  | tuple (l : List Atom)
   | list (l : List Atom)
 deriving DecidableEq, Repr, Inhabited
+
+/-- a field value: an atom, a tuple of atoms, a list of elements (nested lists, lists of tuples),
+or a mapping from strings to atoms (`dict`, or ioflo's `odict` when `ordered`; the two differ only
+in how they print) -/
+inductive Val where
+  | atom (a : Atom)
+  | tuple (l : List Atom)
+  | list (l : List Elem)
+  | dict (ordered : Bool) (d : List (String × Atom))
+deriving DecidableEq, Repr, Inhabited
+
+/-- an element as a value of its own (what `'%s' % (element,)` prints) -/
+def Elem.toVal : Elem → Val
+  | .atom a => .atom a
+  | .tuple l => .tuple l
+  | .list l => .list (l.map .atom)
 
 /-- numeric reading of an atom (`True == 1`, `False == 0`) -/
 def Atom.num : Atom → Option Int
@@ -58,10 +78,15 @@ def pyEqList : List Atom → List Atom → Bool
   | a :: as, b :: bs => a.pyEq b && pyEqList as bs
   | _, _ => false
 
-/-- Python `a == b` on the modelled values (an atom never equals a list) -/
-def Val.pyEq : Val → Val → Bool
+def Elem.pyEq : Elem → Elem → Bool
   | .atom a, .atom b => a.pyEq b
+  | .tuple a, .tuple b => pyEqList a b
   | .list a, .list b => pyEqList a b
+  | _, _ => false
+
+def pyEqElems : List Elem → List Elem → Bool
+  | [], [] => true
+  | a :: as, b :: bs => a.pyEq b && pyEqElems as bs
   | _, _ => false
 
 /-! ## ordered dictionaries -/
@@ -79,12 +104,31 @@ def dset {α : Type} : Dict α → String → α → Dict α
 
 def dkeys {α : Type} (d : Dict α) : List String := d.map (·.1)
 
+/-- every key of `a` is a key of `b` with an equal value -/
+def dictLe (a b : Dict Atom) : Bool :=
+  (dkeys a).all fun k =>
+    match dget a k, dget b k with
+    | some x, some y => x.pyEq y
+    | _, _ => false
+
+/-- Python `a == b` on mappings: the same keys with equal values, in any order
+(`odict == dict` compares as `dict`) -/
+def pyEqDict (a b : Dict Atom) : Bool := dictLe a b && dictLe b a
+
+/-- Python `a == b` on the modelled values (values of different kinds are never equal) -/
+def Val.pyEq : Val → Val → Bool
+  | .atom a, .atom b => a.pyEq b
+  | .tuple a, .tuple b => pyEqList a b
+  | .list a, .list b => pyEqElems a b
+  | .dict _ a, .dict _ b => pyEqDict a b
+  | _, _ => false
+
 /-! ## store and shares -/
 
 /-- a deck entry: a mapping (logged) or anything else (dropped by `logDeck`) -/
 inductive Entry where
-  | map (m : Dict Atom)
-  | other (v : Val)
+  | map (m : Dict Val)
+  | other (e : Elem)
 deriving DecidableEq, Repr, Inhabited
 
 structure Share where
@@ -110,8 +154,10 @@ inductive WOp where
   | write (s : Nat) (f : String) (v : Val)
   /-- `share.change(f=v)` / `share[f] = v`: sets the field, no stamp -/
   | poke (s : Nat) (f : String) (v : Val)
-  /-- `share[f].append(a)` when the field holds a list (otherwise the writer does nothing) -/
-  | append (s : Nat) (f : String) (a : Atom)
+  /-- `share[f].append(e)` when the field holds a list (otherwise the writer does nothing) -/
+  | append (s : Nat) (f : String) (e : Elem)
+  /-- `share[f][k] = a` when the field holds a mapping (otherwise the writer does nothing) -/
+  | setitem (s : Nat) (f : String) (k : String) (a : Atom)
   /-- `share.push(e)` onto the share's deck -/
   | push (s : Nat) (e : Entry)
 deriving Repr
@@ -125,10 +171,15 @@ def World.apply (w : World) : WOp → World
   | .poke s f v =>
     let sh := w.shares s
     w.setShare s { sh with data := dset sh.data f v }
-  | .append s f a =>
+  | .append s f e =>
     let sh := w.shares s
     match dget sh.data f with
-    | some (.list l) => w.setShare s { sh with data := dset sh.data f (.list (l ++ [a])) }
+    | some (.list l) => w.setShare s { sh with data := dset sh.data f (.list (l ++ [e])) }
+    | _ => w
+  | .setitem s f k a =>
+    let sh := w.shares s
+    match dget sh.data f with
+    | some (.dict o d) => w.setShare s { sh with data := dset sh.data f (.dict o (dset d k a)) }
     | _ => w
   | .push s e =>
     let sh := w.shares s
@@ -341,9 +392,13 @@ def changeTags (w : World) (loggees : Dict Nat) :
         let (c', lasts', e) := changeTags w loggees (dset lasts tag last') rest
         (c || c', lasts', e)
 
-/-- records of `logStreak` for a drained list -/
-def streakRecs (stamp : Option Int) (q : List Atom) : List Line :=
-  q.map fun a => .record ⟨stamp, [some (.atom a)]⟩
+/-- records of `logStreak` for a drained list: one per element, `fmt % (element, )` -/
+def streakRecs (stamp : Option Int) (q : List Elem) : List Line :=
+  q.map fun e => .record ⟨stamp, [some e.toVal]⟩
+
+/-- what `popitem()` until empty + `appendleft` leaves in the deque: the `(key, value)` tuples in
+insertion order -/
+def dictItems (d : Dict Atom) : List Elem := d.map fun (k, v) => .tuple [.str k, v]
 
 /-- `Log.logStreak` -/
 def Log.logStreak (w : World) (l : Log) : World × Log × Option Err :=
@@ -375,15 +430,20 @@ def Log.logStreak (w : World) (l : Log) : World × Log × Option Err :=
             if !l.timeFmt && !q.isEmpty then (w', l, some .keyError) else   -- `self.formats['_time']`
             let (l', e) := l.write (streakRecs w.stamp q)
             (w', l', e)
-          | some (.atom a) =>
+          | some (.dict o d) =>                 -- `MutableMapping`: drained with `popitem()`
+            let w' := w.setShare sid { sh with data := dset sh.data field (.dict o []) }
+            if !l.timeFmt && !d.isEmpty then (w', l, some .keyError) else
+            let (l', e) := l.write (streakRecs w.stamp (dictItems d))
+            (w', l', e)
+          | some v =>                           -- not a mutable sequence or mapping: logged as it is
             if !l.timeFmt then (w, l, some .keyError) else
-            let (l', e) := l.write [.record ⟨w.stamp, [some (.atom a)]⟩]
+            let (l', e) := l.write [.record ⟨w.stamp, [some v]⟩]
             (w, l', e)
 
 /-- records of `logDeck` for the entries pulled from the deck (non-mappings are dropped) -/
 def deckRecs (stamp : Option Int) (fs : List String) : List Entry → List Line
   | [] => []
-  | .map m :: rest => .record ⟨stamp, fs.map fun f => (dget m f).map .atom⟩ :: deckRecs stamp fs rest
+  | .map m :: rest => .record ⟨stamp, fs.map fun f => dget m f⟩ :: deckRecs stamp fs rest
   | .other _ :: rest => deckRecs stamp fs rest
 
 /-- `Log.logDeck` -/
@@ -779,7 +839,7 @@ def lateWrite1 (s : S1) : List Op → Bool := lateWrite s.toSys
 /-- the cells a deck log with field list `fs` writes for a queue of entries (non-mappings are dropped) -/
 def entryCells (fs : List String) : List Entry → List (List (Option Val))
   | [] => []
-  | .map m :: rest => (fs.map fun f => (dget m f).map .atom) :: entryCells fs rest
+  | .map m :: rest => (fs.map fun f => dget m f) :: entryCells fs rest
   | .other _ :: rest => entryCells fs rest
 
 /-- the entries pushed onto the deck of share `sid` by a history, in order -/
@@ -789,7 +849,7 @@ def pushed (sid : Nat) : List Op → List Entry
   | _ :: rest => pushed sid rest
 
 /-- the elements appended to the list in field `q` of share `sid` by a history, in order -/
-def appended (sid : Nat) (q : String) : List Op → List Atom
+def appended (sid : Nat) (q : String) : List Op → List Elem
   | [] => []
   | .w (.append s f a) :: rest =>
     if s = sid ∧ f = q then a :: appended sid q rest else appended sid q rest
@@ -803,7 +863,7 @@ def noOverwrite (sid : Nat) (q : String) : List Op → Bool
   | _ :: rest => noOverwrite sid q rest
 
 /-- the elements waiting in the queue field -/
-def pending (w : World) (sid : Nat) (q : String) : List Atom :=
+def pending (w : World) (sid : Nat) (q : String) : List Elem :=
   match dget (w.shares sid).data q with
   | some (.list l) => l
   | _ => []
